@@ -691,3 +691,16 @@ func init() {
 		return Val{S: x.q.define(hint, "Bool", and(tn, un, fmt.Sprintf("(< %s %s)", ti, ui))), T: types.Typ[types.Bool]}, nil
 	})
 }
+
+// ---- prometheus metric vectors: WithLabelValues returns a usable (non-nil) metric; it panics on a label-count mismatch,
+// which is a programming error outside the scope of hostile-input properties ----
+func init() {
+	for _, v := range []string{"GaugeVec", "CounterVec", "HistogramVec", "SummaryVec"} {
+		regLib("(*github.com/prometheus/client_golang/prometheus."+v+").WithLabelValues", func(x *FnExec, fr *frame, n *node, in ssa.Instruction, c *ssa.CallCommon, args []Val, reach, hint string) (Val, error) {
+			res := x.havocVal(hint, resultType(in, c), reach)
+			x.q.assert(implies(reach, not(eq(res.S, "inil"))))
+			x.trusted["prometheus *Vec.WithLabelValues returns a non-nil metric (label-count mismatch panics are out of scope)"] = true
+			return res, nil
+		})
+	}
+}
